@@ -66,7 +66,7 @@ pub fn lock_mask<K>(inner: &CasInner<K>) -> LockMask {
 /// Copy of the pending-intent table, or `None` if the lock is currently held.
 pub fn intents_snapshot<K: Clone + Ord>(inner: &CasInner<K>) -> Option<BTreeMap<K, BlobHash>> {
     let guard = inner.index.pending_intents.try_lock()?;
-    Some(guard.iter().map(|(k, h)| (k.clone(), *h)).collect())
+    Some(guard.verif_entries().into_iter().collect())
 }
 
 /// Copy of the key map, or `None` if the state lock cannot be taken for reading right now.
